@@ -26,3 +26,47 @@ Proof.
     [destruct (negb (contains hf_HEADER_TRANSFER_ENCODING (tq_headers r))); cbn [andb]|];
     cbn [sexec spiece_eval ss_out ss_locals snd]; rewrite <- ?app_assoc, ?app_nil_l; reflexivity.
 Qed.
+
+(* ---- the start lines and the chunk headers: request_line / response_line / chunk_header / last_chunk ::to_string() ---- *)
+Theorem request_line_string_is_the_source r :
+  xrun (mk_xenv [tq_method r; tq_uri r] (tq_major r) (tq_minor r) 0) request_line_to_string_src = Some (request_line_string r).
+Proof.
+  unfold xrun, request_line_to_string_src, request_line_string.
+  cbn [xexec xeval nth xe_strs xe_major xe_minor xe_status snd app].
+  rewrite <- ?app_assoc; reflexivity.
+Qed.
+
+Theorem response_line_string_is_the_source r :
+  xrun (mk_xenv [rs_reason r] (rs_major r) (rs_minor r) (rs_status r)) response_line_to_string_src = Some (response_line_string r).
+Proof.
+  unfold xrun, response_line_to_string_src, response_line_string.
+  cbn [xexec xeval nth xe_strs xe_major xe_minor xe_status snd].
+  rewrite <- ?app_assoc; reflexivity.
+Qed.
+
+Theorem chunk_header_string_is_the_source size ext :
+  xrun (mk_xenv [to_hex_string size; ext] 0 0 0) chunk_header_to_string_src = Some (chunk_header_string size ext).
+Proof.
+  unfold xrun, chunk_header_to_string_src, chunk_header_string, ext_string.
+  cbn [xexec xeval nth xe_strs snd].
+  destruct ext as [|c ext]; cbn [xexec xeval nth xe_strs snd]; rewrite <- ?app_assoc, ?app_nil_l; reflexivity.
+Qed.
+
+Theorem last_chunk_string_is_the_source ext trailers :
+  xrun (mk_xenv [ext; trailers] 0 0 0) last_chunk_to_string_src = Some (last_chunk_string ext trailers).
+Proof.
+  unfold xrun, last_chunk_to_string_src, last_chunk_string, ext_string.
+  cbn [xexec xeval nth xe_strs snd].
+  destruct ext as [|c ext]; cbn [xexec xeval nth xe_strs snd]; rewrite <- ?app_assoc, ?app_nil_l; reflexivity.
+Qed.
+
+(* the whole head of a message: the translated to_string() of the start line, fed to the translated message() *)
+Theorem response_head_is_the_source r n :
+  exists line, xrun (mk_xenv [rs_reason r] (rs_major r) (rs_minor r) (rs_status r)) response_line_to_string_src = Some line
+            /\ srun (mk_senv line (rs_headers r) (rs_status r) n) tx_response_message_src = Some (response_message r n).
+Proof. exists (response_line_string r). split; [apply response_line_string_is_the_source | apply response_message_is_the_source]. Qed.
+
+Theorem request_head_is_the_source r n :
+  exists line, xrun (mk_xenv [tq_method r; tq_uri r] (tq_major r) (tq_minor r) 0) request_line_to_string_src = Some line
+            /\ srun (mk_senv line (tq_headers r) 0 n) tx_request_message_src = Some (request_message r n).
+Proof. exists (request_line_string r). split; [apply request_line_string_is_the_source | apply request_message_is_the_source]. Qed.
